@@ -181,6 +181,6 @@ def run_c01x(ctx, harness, quick):
 MANIFEST = {
     "category": "proof",
     "text": "Coq theorems (equalities of result trees, every fuel and universe) for the CoreCUE conjunct-group semantics: the value of a node depends only on the set of conjunct groups and, within a group, on the set of operands - hence permutation of declarations/files, duplication, commutation/re-association/idempotence of &, & _, split/merge of declarations, {e} sole embedding of a reference/close/scalar, and declaration order inside struct literals all preserve the value. The model is tied to cue by exact agreement of canonical result trees (fields, kinds, per-atom acceptance, in-language closedness probes) on generated programs, and the property is checked directly on the implementation by comparing every program with its rearrangements and a multi-file partition.",
-    "note": "Theorems are about CoreCUE (no references between regular fields, comprehensions, lists, disjunctions inside fields); the declaration-order law is proved for literals without embeddings; congruence of the laws under field values is not yet a theorem (checked by the rearrangement harness at every depth). Known finding F8 (embedding a struct literal changes closedness) is reported as KNOWN-FINDING from corpus/C01/pairs.txt; the generator never embeds plain literals. An additional EXPLORATION stream (mode c01x, harness/core/rich.go; impl vs impl, no model, no theorem) compares programs of a much richer generated fragment (references, let, lists and list comprehensions, field comprehensions, templates with pattern constraints, numeric bounds with the type arriving through a reference, embedded definitions, interpolation, arithmetic, close()) with 6 rearrangements each, some as multi-file packages; it excludes disjunctions/defaults (F2), embedded plain literals (F8) and computations over references into erroneous values (F17; its four witness pairs are evaluated on every run and reported as KNOWN-FINDING while they disagree).",
+    "note": "Theorems are about CoreCUE (no references between regular fields, comprehensions, lists, disjunctions inside fields); the declaration-order law is proved for literals without embeddings; congruence is a theorem for & and for the value position of a field of an embedding-free literal (Core/Congr.v: contextual equivalence veq is an equivalence, every basic law is a veq fact, C01_veq_and_congr, C01_veq_field_congr), so the laws apply at any depth reached through such fields; under embeddings, close(), definition bodies and pattern values congruence is only checked by the rearrangement harness. Structs whose FIELDS hold disjunctions are covered by Core/Nest.v: C01_nest_term_order (the value of a conjunction of such literals - every field's value/default outcome - is independent of the order of the terms), C01_nest_plain_perm, C01_nest_split_literal; they are tied to cue by the model stream `nest` of checks/C04.py (probe structs are unified in front and at the back). Known finding F8 (embedding a struct literal changes closedness) is reported as KNOWN-FINDING from corpus/C01/pairs.txt; the generator never embeds plain literals. An additional EXPLORATION stream (mode c01x, harness/core/rich.go; impl vs impl, no model, no theorem) compares programs of a much richer generated fragment (references, let, lists and list comprehensions, field comprehensions, templates with pattern constraints, numeric bounds with the type arriving through a reference, embedded definitions, interpolation, arithmetic, close()) with 6 rearrangements each, some as multi-file packages; it excludes disjunctions/defaults (F2), embedded plain literals (F8) and computations over references into erroneous values (F17; its four witness pairs are evaluated on every run and reported as KNOWN-FINDING while they disagree).",
     "technique": "Coq proof (set-of-conjuncts invariance by induction on depth) + extracted-model differential check + direct metamorphic check on the implementation",
 }
